@@ -188,7 +188,11 @@ Definition run_route (c impl : sexp) : sexp :=
               verdict "c02_no_panic" (negb (Z.eqb i_class 2));
               verdict "c02_outcome_exact" v_c02 ];
         A (L cls);
-        Lst [ verdict "wf_invoked_route" wf_inv; verdict "wf_best_service" wf_best ] ].
+        Lst [ verdict "wf_invoked_route" wf_inv; verdict "wf_best_service" wf_best;
+              verdict "jsr_tokens_agree_on_invoked" (match t_router t, inv with
+                                                     | Jsr311, Some (w, r) => jsr_tokens_agree w r
+                                                     | _, _ => false end);
+              verdict "jsr311" (match t_router t with Jsr311 => true | Curly => false end) ] ].
 
 (* ---- domain "slash" (C14): (oracles table request), impl = (obs(p) obs(p/)) ---- *)
 Definition has_tail_template (t : table) : bool :=
